@@ -14,28 +14,28 @@ use std::sync::{Arc, Condvar, Mutex};
 use vm_memory::bitmap::{AtomicBitmap, Bitmap};
 use vm_memory::verif::shim::{set_atomic_hook, AtomicHook};
 
-const NOT_SCHEDULED: usize = usize::MAX;
+pub const NOT_SCHEDULED: usize = usize::MAX;
 const PROBE: usize = usize::MAX - 1;
 
 thread_local! {
-    static TID: Cell<usize> = const { Cell::new(NOT_SCHEDULED) };
+    pub static TID: Cell<usize> = const { Cell::new(NOT_SCHEDULED) };
 }
 
 #[derive(Default)]
-struct St {
-    turn: Option<usize>,
-    parked: Vec<bool>,
-    done: Vec<bool>,
-    log: Vec<Value>,
-    last_idx: Vec<Option<usize>>,
-    pending_begin: Vec<Option<Value>>,
-    probe_addr: usize,
-    base: usize,
+pub struct St {
+    pub turn: Option<usize>,
+    pub parked: Vec<bool>,
+    pub done: Vec<bool>,
+    pub log: Vec<Value>,
+    pub last_idx: Vec<Option<usize>>,
+    pub pending_begin: Vec<Option<Value>>,
+    pub probe_addr: usize,
+    pub base: usize,
 }
 
-struct Shared {
-    m: Mutex<St>,
-    cv: Condvar,
+pub struct Shared {
+    pub m: Mutex<St>,
+    pub cv: Condvar,
 }
 
 fn bits(v: u64) -> Vec<u32> {
@@ -77,6 +77,17 @@ impl AtomicHook for Shared {
         st.turn = None;
         self.cv.notify_all();
     }
+}
+
+/// A harness-level scheduled event: waits for the baton like an atomic step and logs `ev`.
+pub fn annotate(sh: &Shared, mut ev: Value) {
+    let tid = TID.with(|t| t.get());
+    sh.pre();
+    let mut st = sh.m.lock().unwrap();
+    ev["t"] = json!(tid + 1);
+    st.log.push(ev);
+    st.turn = None;
+    sh.cv.notify_all();
 }
 
 fn pages_of(words: &[u64]) -> Vec<usize> {
